@@ -76,9 +76,9 @@ def fns(name, args):
     if name == "abs":
         v = args[0]
         return v if float(v) >= 0 else -v
-    if name in ("log1p", "log", "exp"):
+    if name in ("log1p", "log", "exp", "sqrt"):
         v = args[0]
-        k = {"log1p": 3, "log": 5, "exp": 7}[name]
+        k = {"log1p": 3, "log": 5, "exp": 7, "sqrt": 11}[name]
         return (v * v * Q2(Fraction(1, k)) + v * Q2(Fraction(k, 7)) + Q2(Fraction(1, k + 1)))
     raise KeyError(name)
 
